@@ -407,7 +407,12 @@ class Run:
                 return f'!{type(ex).__name__}'
 
         def get_line(t):
-            pairs = sorted(ent_code(e) * 100000 + c._oid for e, c in w.get(self.classes[t]))
+            res = w.get(self.classes[t])
+            pairs = sorted(ent_code(e) * 100000 + c._oid for e, c in res)
+            # the caller owns what a query returns: using it as a work list must not disturb the world
+            if isinstance(res, list):
+                res.clear()
+                res.append(('junk', None))
             return ','.join(f'{p // 100000}:{p % 100000}' for p in pairs) or '-'
 
         def has_line(pe, t):
@@ -433,7 +438,13 @@ class Run:
             return ','.join(f'{p // 100000}:{p % 100000}' for p in pairs) or '-'
         out.append('getall ' + q(getall_line))
         out.append('entities ' + q(lambda: ','.join(map(str, sorted(ent_code(e) for e in w.entities))) or '-'))
-        out.append('procs ' + q(lambda: ','.join(str(p._oid) for p in w.processors) or '-'))
+        def procs_line():
+            res = w.processors
+            line = ','.join(str(p._oid) for p in res) or '-'
+            if isinstance(res, list):
+                res.clear()
+            return line
+        out.append('procs ' + q(procs_line))
         for t in ptys:
             out.append(f'gp {t} ' + q(lambda: gp_line(t)))
         out.append('pw ' + (','.join(str(o) for o in sorted(
